@@ -229,7 +229,7 @@ type c13State struct {
 	evSeq    int
 	windows  int
 	itemSalt int
-	handles  int            // 0: every registration goes through the table's own method and names the table itself
+	handles  int             // 0: every registration goes through the table's own method and names the table itself
 	other    *tabular.ATable // another table, whose RegisterPropertyCallback method some registrations go through
 	log      []string
 	desc     map[string]interface{}
